@@ -147,6 +147,63 @@ func (c01) held(n int) string {
 	return fmt.Sprintf("early=%d all=%d", early, all)
 }
 
+// c01.half <n>   one connection writes n GETs and then finishes its own direction (shutdown of the write side, as `printf … | nc` does); the
+// backends answer at once.  -> replies=<replies read before end-of-stream>
+func (c01) half(n int) string {
+	rig := c01Rig()
+	defer hx.DropScopes(rig.ScopeName())
+	ln, err := net.Listen("tcp", "127.0.0.1:0")
+	if err != nil {
+		return "sockerr"
+	}
+	defer ln.Close()
+	go func() {
+		for {
+			c, err := ln.Accept()
+			if err != nil {
+				return
+			}
+			go rig.ServeConn(c)
+		}
+	}()
+	stop := make(chan struct{})
+	defer close(stop)
+	go func() {
+		for {
+			select {
+			case <-stop:
+				return
+			default:
+			}
+			for _, s := range rig.Drain() {
+				s.Reply(&redis.RespValue{Type: redis.BulkString, Text: []byte("v")})
+			}
+			time.Sleep(200 * time.Microsecond)
+		}
+	}()
+	c, err := net.DialTimeout("tcp", ln.Addr().String(), time.Second)
+	if err != nil {
+		return "sockerr"
+	}
+	defer c.Close()
+	var b bytes.Buffer
+	for i := 0; i < n; i++ {
+		b.Write(hx.Wire(hx.Bulks([]byte("get"), []byte(fmt.Sprintf("half-%d", i)))))
+	}
+	c.Write(b.Bytes())
+	c.(*net.TCPConn).CloseWrite()
+	dec := redis.VerifNewDecoder(c, 4096)
+	got := 0
+	for {
+		c.SetReadDeadline(time.Now().Add(2 * time.Second))
+		if _, err := dec.Decode(); err != nil {
+			break
+		}
+		got++
+	}
+	return fmt.Sprintf("replies=%d", got)
+}
+
 func (c01) pipe(f []string) string {
 	if len(f) < 4 {
 		return "bad-op"
@@ -489,6 +546,13 @@ func (c01) client(n, chunk int, seed int64, kind string) string {
 }
 
 func (c c01) Exec(op string) string {
+	if f := hx.Fields(op); len(f) == 2 && f[0] == "c01.half" {
+		n, err := strconv.Atoi(f[1])
+		if err != nil || n < 1 || n > 200 {
+			return "bad-op"
+		}
+		return recoverStr(func() string { return c.half(n) })
+	}
 	if f := hx.Fields(op); len(f) == 2 && f[0] == "c01.held" {
 		n, err := strconv.Atoi(f[1])
 		if err != nil || n < 1 || n > 200 {
